@@ -367,7 +367,8 @@ def judge(sc, st, res, tr, cmd_metas, V, want):
             ci += 1
             t = meta.get('t')
             V.bump('cmd_' + str(t))
-            errors = [e for e in seg.errs if 'Error: ' in e]
+            # (in GDB mode both streams are gdb's stderr, so error lines arrive on the same stream as everything else)
+            errors = [e for e in seg.errs if 'Error: ' in e] + [o.text for o in seg.outs if o.text.startswith('Error: ')]
             if t in ('filter', 'breakpoint'):
                 state = fstate if t == 'filter' else bstate
                 if meta.get('bad'):
